@@ -12,7 +12,7 @@ from vlib import Infra
 FAM = {"C13": "Fam13", "C14": "Fam14"}
 ASSUMPTIONS = [
     "time and timers are virtual: the package's own timeNow/timeAfterFunc hooks are set by the injected harness; a timer is 'due' from the tick it expires and its callback runs when the script fires it (models callbacks waiting for the lock); Stop() on a due timer returns false like time.AfterFunc; the clock is read either fine-grained (every reading later than the one before) or coarse (all readings between two clock advances equal: a quarter of the histories and a third of the random jobs run a second time / run that way)",
-    "endpoint lists contain distinct names (duplicates are outside the statement)",
+    "endpoint lists contain distinct names (duplicates are outside the statement); a fifth of the histories run a second time with one model id given to the real object as the empty string \"\" (translated at the API boundary, the trace keeps the model's id)",
     "calls are sequential in this pipeline; data races are C10's subject",
 ]
 
@@ -156,6 +156,9 @@ def run(pid, tier, seed):
         # a coarse time source: every fourth history is run a second time with a clock that returns the same instant for all
         # readings between two clock advances (stale timers must not be told apart by comparing clock readings only)
         scripts += [dict(s, id=s["id"] + "-cc", cfg=dict(s["cfg"], coarse=True)) for k, s in enumerate(scripts) if k % 4 == 1 and s["cfg"].get("r", 0) + s["cfg"].get("d", 0) > 0]
+        # the empty string as an endpoint name: every fifth history is run again with the model's id "a" (always in the initial
+        # list) / "c" handed to the real object as "" (vmAlias in the harness translates both ways)
+        scripts += [dict(s, id=s["id"] + "-en", cfg=dict(s["cfg"], emptyname="ac"[(k // 5) % 2])) for k, s in enumerate(scripts) if k % 5 == 2 and not s["id"].endswith("-cc")]
         for p in problems:
             scripts += p["cex"]
         seedp = os.path.join(vlib.VERIF, "scripts", "me_seed.ndjson")
@@ -174,7 +177,7 @@ def run(pid, tier, seed):
         for ci in idxs:
             R, D, ninit, nids, qd, td = CONFIGS[ci]
             for j in range(nj):
-                jobs.append({"id": "rnd-r%dd%dn%d-%d" % (R, D, ninit, j), "cfg": {"eps": ["a", "b", "c", "d"][:ninit], "r": R, "d": D, "coarse": j % 3 == 2},
+                jobs.append({"id": "rnd-r%dd%dn%d-%d" % (R, D, ninit, j), "cfg": {"eps": ["a", "b", "c", "d"][:ninit], "r": R, "d": D, "coarse": j % 3 == 2, "emptyname": ["", "", "", "b", "a"][j % 5]},
                              "seed": seed * 7919 + ci * 104729 + j, "steps": nsteps, "names": 3 if j % 4 else 4})
         jin, jout = scratch.path("me-jobs.ndjson"), scratch.path("me-rtrace.ndjson")
         with open(jin, "w") as f:
